@@ -981,6 +981,18 @@ theorem life_refuses_over_stale_journal (p seq : Str) (c : Bool) (names : List S
   rw [if_pos]
   exact startup_refuses p seq c _ (by simp [List.mem_filter, hn, hm])
 
+
+/-- **A refused start is the identity on the file system**: next to the journal of a killed append (of any
+archive of the prefix) a new run -- appending or not, with or without max_size: whatever steps it would
+have taken -- raises and leaves every file exactly as it was; in particular every archive still holds the
+bytes its journal's recovery recipe needs, and the journal itself is still there. -/
+theorem refused_start_is_identity (p seq : Str) (c : Bool) (names : List Str) (m : Dir) (steps : List Step)
+    (hn : journalName p seq c ∈ names) (hm : (m (journalName p seq c)).isSome = true) :
+    (startLife p names m steps).st = .raised ∧ (startLife p names m steps).tr = [] ∧
+    ∀ x, (startLife p names m steps).dir x = m x := by
+  rw [life_refuses_over_stale_journal p seq c names m steps hn hm]
+  exact ⟨rfl, rfl, fun _ => rfl⟩
+
 -- non-vacuity
 example : (runStep (Dir.ofList [(lit "w.warc", some [7, 7, 7])])
       { kind := .startTrunc, target := lit "w.warc", sched := { awrites := [([1, 2], .fail 1)] } }).st = .raised ∧
